@@ -65,6 +65,7 @@ class Msg:
         self.last_chunk = b"0"
         self.trailers = []         # (name, raw value)
         self.cl_name = "Content-Length"
+        self.cl_pad = 0            # leading zeros in the Content-Length value (1*DIGIT allows them)
         self.te_name = "Transfer-Encoding"
         self.te_value = b"chunked"
         self.framing_first = False # put the framing header before the others
@@ -96,6 +97,8 @@ class Msg:
                 f.append("lead0")
             if any(t != t.lower() for _, t, _ in self.chunks):
                 f.append("upperhex")
+        if self.cl_pad:
+            f.append("clpad")
         f.append("h%d" % min(len(self.headers), 6))
         if any(v != v.strip(b" \t") for _, v in self.headers):
             f.append("ows")
@@ -117,7 +120,7 @@ class Msg:
         hdrs = list(self.headers)
         fr = []
         if self.framing == "cl":
-            fr.append((self.cl_name, str(len(self.body)).encode()))
+            fr.append((self.cl_name, self.cl_text().encode()))
         elif self.framing == "chunked":
             fr.append((self.te_name, self.te_value))
         if self.framing_first:
@@ -164,10 +167,13 @@ class Msg:
             d[n.lower()] = v.strip(b" \t").decode("latin-1")
         return d
 
+    def cl_text(self):
+        return "0" * self.cl_pad + str(len(self.body))
+
     def framing_headers(self):
         d = {}
         if self.framing == "cl":
-            d[self.cl_name.lower()] = str(len(self.body))
+            d[self.cl_name.lower()] = self.cl_text()
         elif self.framing == "chunked":
             d[self.te_name.lower()] = self.te_value.strip(b" \t").decode("latin-1")
         return d
@@ -332,7 +338,7 @@ def hex_text(rng, size):
     elif m == 2:
         t = "".join(c.upper() if rng.random() < 0.5 else c for c in t)
     if rng.random() < 0.2:
-        t = "0" * rng.choice([1, 1, 2, 3, 6]) + t
+        t = "0" * rng.choice([1, 1, 2, 3, 6, 17]) + t
     return t.encode()
 
 
@@ -465,6 +471,8 @@ def gen_request(rng, sid, idx, big_ok=False, want=None):
         m.body = rand_body(rng, pick_size(rng, big_ok))
         m.cl_name = rand_case(rng, "Content-Length")
         m.framing_first = rng.random() < 0.3
+        if rng.random() < 0.12:
+            m.cl_pad = rng.choice([1, 2, 5, 19])
     else:
         m.method = rng.choice(REQ_METHODS_BODY)
         m.body = rand_body(rng, pick_size(rng, big_ok))
@@ -472,7 +480,7 @@ def gen_request(rng, sid, idx, big_ok=False, want=None):
     return m
 
 
-def server_valid(rng, n, prefix="sv"):
+def server_valid(rng, n, prefix="sv", multi=4):
     out = []
     for i in range(n):
         sid = "%s%d" % (prefix, i)
@@ -482,7 +490,7 @@ def server_valid(rng, n, prefix="sv"):
         big_ok = (i % 9 == 0)
         st.msgs = [gen_request(rng, sid, j, big_ok=big_ok and j == 0) for j in range(k)]
         st.expect_n = k
-        finish_stream(st, rng, st.msgs)
+        finish_stream(st, rng, st.msgs, multi=multi)
         out.append(st)
     return out
 
@@ -729,6 +737,8 @@ def gen_response(rng, method="GET", want=None, big_ok=False):
         m.body = rand_body(rng, pick_size(rng, big_ok))
         m.cl_name = rand_case(rng, "Content-Length")
         m.framing_first = rng.random() < 0.3
+        if rng.random() < 0.12:
+            m.cl_pad = rng.choice([1, 2, 5, 19])
     elif kind == "chunked":
         m.body = rand_body(rng, pick_size(rng, big_ok))
         make_chunked(rng, m)
@@ -766,7 +776,7 @@ def client_valid(rng, n, prefix="cv"):
             wire_m.framing = "none"
             wire_m.headers = list(m.headers)
             if m.framing == "cl":
-                wire_m.headers.append((m.cl_name, b" %d" % len(m.body)))
+                wire_m.headers.append((m.cl_name, b" " + m.cl_text().encode()))
             elif m.framing == "chunked":
                 wire_m.headers.append((m.te_name, m.te_value))
             wire_m.body = b""
